@@ -6,6 +6,8 @@
 Require Import BB.Base.Str BB.Base.Xml BB.Base.Dict BB.Model.PegSyntax BB.Model.Peg BB.Model.Types BB.Model.XmlGen.
 Require Import BB.Gen.Grammar BB.Gen.TablesTypes BB.Gen.TablesXsl BB.Gen.TablesReadme.
 Require Import BB.Proofs.Tables BB.Proofs.KeywordElement BB.Proofs.HierShape.
+Require Import BB.Model.Eid BB.Model.EidSpec BB.Model.PreParse BB.Model.Convert BB.Gen.TablesParser BB.Gen.TablesLibs BB.Proofs.EscapeLossless.
+Require Import BB.Proofs.PegEscape BB.Proofs.PegPlain BB.Proofs.PegLine BB.Proofs.LineRule BB.Proofs.PlainLine BB.Proofs.PlainLineConvert BB.Proofs.HierElement BB.Proofs.HierElementConvert.
 
 (* README.md against akn.peg and types.py (all three regenerated from /repo on every run) *)
 Theorem C04_readme_keywords_in_grammar : subset readme_line_keywords (keywords akn_peg) = true.
@@ -88,3 +90,55 @@ Example C04_example :
   /\ wrap_spec 3 [(false, [Tx [97]]); (true, [Tx [98]]); (false, [Tx [99]])] 0 false
      = [El (XmlGen.S_ "intro") [] [Tx [97]]; Tx [98]; El (XmlGen.S_ "wrapUp") [] [Tx [99]]].
 Proof. split; vm_compute; reflexivity. Qed.
+
+(* Text to tree for a whole hierarchical element, first at the grammar and dict stages: for each of the 34 keywords, every num
+   without blank or backslash (not starting with a dash), every heading and every content line given as plain or escaped
+   characters ([text_units]), in any context (pre, rest): rule hier_element reads `KEYWORD num - heading`, the indent, the line
+   and the dedent as one element, and to_dict gives the hier node with the keyword's element name, that num, that heading and
+   one paragraph holding the line (Proofs/HierElement.v). *)
+Theorem C04_hier_element_yields_hier_node : forall f f' pre kw n uh ul rest rest' o6 td,
+  In kw hier_keywords -> num_ok n -> text_units uh -> text_units ul ->
+  (match encode uh with c :: _ => c <> 32 | [] => True end) ->
+  let L := encode ul ++ NL :: 15 :: NL :: rest in
+  none_starts block_lits L = true -> p_safe L = true -> starts_with SUBH L = false -> no_ctl_start (encode ul) = true ->
+  let off := len_N pre in
+  let o5' := off + len_N kw + 1 + len_N n + 3 + len_N (encode uh) + 1 + 2 + len_N (encode ul) + 1 in
+  run akn_peg (8 + (25 + f)) (Ref (of_string "dedent")) (15 :: NL :: rest) o5' = Ok rest' o6 td -> o5' < o6 ->
+  exists tree hds lds,
+    run akn_peg (40 + f) (Ref (of_string "hier_element")) (hier_text kw n uh ul rest) off = Ok rest' o6 tree
+    /\ to_dict (pre ++ hier_text kw n uh ul rest) (3 + f') tree = OkR (hier_dnode kw n hds lds)
+    /\ Forall is_dtext hds /\ concat (map dval hds) = decode uh
+    /\ Forall is_dtext lds /\ concat (map dval lds) = decode ul
+    /\ is_root tree = false.
+Proof. exact hier_element_yields_hier_node. Qed.
+Print Assumptions C04_hier_element_yields_hier_node.
+
+(* ... and through the WHOLE pipeline model: for every known FRBR URI, every eId prefix, each of the 34 keywords, every such num,
+   every plain heading and every plain line indented by any number of blanks,
+       KEYWORD num - heading
+         line
+   converts to  <tag eId="<prefix__>abbr_num"><num>num</num><heading>heading</heading><content><p eId="...__p_1">line</p></content></tag>
+   where tag is the keyword's element (synonyms resolved) and abbr its abbreviation: pre_parse, grammar, to_dict, XML builder,
+   text normalisation, footnote resolution, empty-element removal, eId generation, attachment titles (Proofs/HierElementConvert.v). *)
+Theorem C04_hier_element_converts : forall uri prefix kw n h t k root_meta att_meta,
+  assoc_str uri meta_templates = Some (root_meta, att_meta) ->
+  In kw hier_keywords ->
+  num_ok n -> Forall (fun c => c <> TAB) n -> clean_num n <> [] -> valid_text n = true ->
+  plain_text h -> plain_text t ->
+  let L := t ++ NL :: 15 :: [NL] in
+  none_starts block_lits L = true -> p_safe L = true -> starts_with SUBH L = false -> no_ctl_start t = true ->
+  (1 <= k)%nat ->
+  let tag := hier_name kw in
+  let cand := candidate prefix tag (clean_num n) in
+  convert uri (of_string "hier_element") prefix (kw ++ 32 :: n ++ 32 :: 45 :: 32 :: h ++ NL :: repeat SP k ++ t ++ [NL])
+  = OkR (hier_x tag [(EID, cand)] [(EID, cand ++ DUSCORE ++ P1)] n h t).
+Proof. exact hier_element_converts. Qed.
+Print Assumptions C04_hier_element_converts.
+
+(* the instance the theorem predicts, evaluated: a synonym keyword, a num with punctuation, three blanks of indentation *)
+Example C04_hier_element_converts_example :
+  convert (of_string "/akn/za/act/2009/1") (of_string "hier_element") (of_string "chp_2")
+          (of_string "SUBSEC (3A) - Powers * of the {Minister}" ++ NL :: of_string "   may / delegate 50% of_them" ++ [NL])
+  = OkR (hier_x (of_string "subsection") [(EID, of_string "chp_2__subsec_3A")] [(EID, of_string "chp_2__subsec_3A__p_1")]
+                (of_string "(3A)") (of_string "Powers * of the {Minister}") (of_string "may / delegate 50% of_them")).
+Proof. vm_compute. reflexivity. Qed.
